@@ -179,7 +179,7 @@ func cmdCheck(args []string) int {
 	// specific obligation kinds / clause labels of functions that are fully verified under
 	// other properties
 	applyPropFilter(prop, results)
-	discharge(results, timeout, thorough, 14)
+	discharge(results, timeout, thorough, 10)
 	solveS := time.Since(tSolve).Seconds()
 
 	undecided := loadUndecided()
